@@ -88,6 +88,7 @@ type summary struct {
 	Escapes      map[int]bool // parameter index whose pointer may be retained beyond the call
 	Fresh        map[int]bool // result index whose value is always an object allocated during the call
 	RetParams    map[int][]int // result index whose value is always fresh or (an object handed in as) one of these parameters
+	RetGlobals   map[int][]*ssa.Global // result index that may be (reachable from) one of these package-level variables
 	CallsUnknown bool         // may run code outside the analysed set through an interface or function value
 }
 
@@ -124,7 +125,7 @@ func (c *Ctx) Effects() *Effects {
 	for fn := range c.allFuncSet {
 		if analysable(fn) {
 			e.funcs = append(e.funcs, fn)
-			e.sums[fn] = &summary{Effects: map[string]effect{}, Escapes: map[int]bool{}, Fresh: map[int]bool{}, RetParams: map[int][]int{}}
+			e.sums[fn] = &summary{Effects: map[string]effect{}, Escapes: map[int]bool{}, Fresh: map[int]bool{}, RetParams: map[int][]int{}, RetGlobals: map[int][]*ssa.Global{}}
 		}
 	}
 	sortFuncs(e.funcs)
@@ -286,6 +287,15 @@ func (e *Effects) originRec(fn *ssa.Function, v ssa.Value, cache map[ssa.Value]o
 				out.add(origin{Kind: orgLocal})
 			}
 			break
+		}
+		if f := x.Call.StaticCallee(); f != nil {
+			if cs := e.sums[f]; cs != nil {
+				for _, gs := range cs.RetGlobals {
+					for _, g := range gs {
+						out.add(origin{Kind: orgGlobal, Glob: g, Deep: true})
+					}
+				}
+			}
 		}
 		if f := x.Call.StaticCallee(); f != nil && !isTuple(x.Type()) {
 			if cs := e.sums[f]; cs != nil && cs.Fresh[0] {
@@ -616,6 +626,25 @@ func (e *Effects) summarise(fn *ssa.Function) bool {
 						okVia = false
 					}
 				}
+			}
+			// package-level state that can come back as this result
+			globs := map[*ssa.Global]bool{}
+			for _, r := range rets {
+				for o := range e.originOf(fn, results(r)[i]) {
+					if o.Kind == orgGlobal && o.Glob != nil {
+						globs[o.Glob] = true
+					}
+				}
+			}
+			var gl []*ssa.Global
+			for g := range globs {
+				gl = append(gl, g)
+			}
+			sort.Slice(gl, func(a, b int) bool { return gl[a].Name() < gl[b].Name() })
+			if fmt.Sprint(gl) != fmt.Sprint(s.RetGlobals[i]) {
+				s.RetGlobals[i] = gl
+				changed = true
+				e.orgCache = map[*ssa.Function]map[ssa.Value]orgSet{}
 			}
 			var via []int
 			if okVia && len(viaParams) > 0 {
